@@ -25,7 +25,10 @@ let run_rtte_pred toks =
       match String.split_on_char ',' t with
       | [a; b] -> Some (z_of_string a, z_of_string b)
       | _ -> failwith "rtte_pred: bad obs") obs in
-  if c16_ok (parse_rtte_ops ops) obs then "OK" else "FAIL c16_ok"
+  let ops = parse_rtte_ops ops in
+  if not (c16_ok ops obs) then "FAIL c16_ok"
+  else if not (c16_exact_ok ops obs) then "FAIL c16_exact_ok"
+  else "OK"
 
 
 let dispatch = function
